@@ -1,6 +1,6 @@
-From RsdnsModel Require Import Base Cursor Names Labels.
+From RsdnsModel Require Import Base Cursor Names Labels Writer.
 From RsdnsModel.Spec Require Import WireName NameText.
-From RsdnsModel.Proofs Require Import CursorSafe LabelsSound NameText.
+From RsdnsModel.Proofs Require Import CursorSafe LabelsSound NameText WriterSafe WriterLayout RoundTrip.
 From RsdnsModel.Properties Require Import C05.
 Open Scope N_scope.
 Check (C05_parse_iff_valid : forall s, check_name_bytes s = Ok tt <-> valid_text s = true).
@@ -10,4 +10,15 @@ Check (C05_from_str : forall nk s,
 Check (C05_decoded_valid : forall msg nk nk' c t c',
   cwf msg c -> read_name msg nk c = Ok (t, c') ->
   valid_text t = true /\ name_from_str nk' t = Ok t).
-Print Assumptions C05_parse_iff_valid. Print Assumptions C05_from_str. Print Assumptions C05_decoded_valid.
+Check (C05_encoder_exact : forall w s w' n, wpos w <= wcap w ->
+  write_name w s = Ok (w', n) ->
+  valid_text s = true /\ written w w' (qname_wire s) /\ n = lenN (qname_wire s) /\ n <= 255).
+Check (C05_decode_plain : forall msg nk pre ls post c,
+  msg = pre ++ wire_encode ls ++ post -> cwf msg c -> pos c = lenN pre -> lenN pre + wire_len ls <= lim c ->
+  Forall (fun l => label_ok l = true) ls -> wire_len ls <= 255 ->
+  read_name msg nk c = Ok (join_labels ls, c_set_pos c (lenN pre + wire_len ls))).
+Check (C05_encode_then_decode : forall w s w' n nk,
+  wpos w <= wcap w -> write_name w s = Ok (w', n) ->
+  let c := mkCursor (wpos w') (wpos w) None in
+  read_name (wbuf w') nk c = Ok (canon_text s, c_set_pos c (wpos w'))).
+Print Assumptions C05_parse_iff_valid. Print Assumptions C05_from_str. Print Assumptions C05_decoded_valid. Print Assumptions C05_encoder_exact. Print Assumptions C05_decode_plain. Print Assumptions C05_encode_then_decode.
